@@ -444,6 +444,43 @@ fn c13_one<T: Elem>(out: &mut Out, rng: &mut Sm) {
     });
 }
 
+/// `ess_from_chainstats`: trackers fed every draw of their chain, ESS of the unsplit draws with the trackers' W / var+
+fn c13_ess(out: &mut Out, rng: &mut Sm) {
+    let id = out.fresh_id("ec");
+    let m = rng.range(2, 8) as usize;
+    // unsplit chains: lengths around the 100-row switch of `autocov`, short ones, and a few hundred (the model's
+    // list-based autocovariance is quadratic, so no thousands here — C12 covers those through the split path)
+    let n = match rng.below(3) {
+        0 => rng.range(4, 60),
+        1 => rng.range(95, 106),
+        _ => rng.range(60, 600),
+    } as usize;
+    let k = pick_kind(rng);
+    let scale = rng.log_uniform(1e-2, 1e2);
+    let loc = if rng.coin(0.2) { scale * rng.log_uniform(100.0, 1000.0) } else { rng.normal() * scale * 3.0 };
+    let col = series(rng, k, m, n, loc, scale);
+    if !out.selected(&id) {
+        return;
+    }
+    guard_case(out, &id.clone(), "C13:panic", (m * n) as u64, |out| {
+        let a = array_of(&[col.clone()], m, n);
+        let trackers: Vec<ChainStats> = (0..m)
+            .map(|c| {
+                let mut t = ChainTracker::new(1, &[a[[c, 0, 0]]]);
+                for i in 0..n {
+                    t.step(&[a[[c, i, 0]]]).unwrap();
+                }
+                t.stats()
+            })
+            .collect();
+        let refs: Vec<&ChainStats> = trackers.iter().collect();
+        let e = mini_mcmc::stats::ess_from_chainstats(a.view(), &refs);
+        out.case(format!("c13e {id} {m} {n} ; {}", col_tokens(&a, 0)), format!("{id} {}", ts(e[0])));
+        out.count("ess_from_chainstats");
+        out.nontrivial(&format!("ec:{m}:{n}:{k:?}"));
+    });
+}
+
 pub fn run_c13(out: &mut Out) {
     let mut rng = out.rng("c13");
     let n = out.n(160, 3000);
@@ -454,5 +491,8 @@ pub fn run_c13(out: &mut Out) {
             2 => c13_one::<i32>(out, &mut rng),
             _ => c13_one::<usize>(out, &mut rng),
         }
+    }
+    for _ in 0..out.n(60, 1200) {
+        c13_ess(out, &mut rng);
     }
 }
